@@ -34,7 +34,7 @@ MIN_EVALS = 1500
 MIN_NONTRIVIAL = 800
 
 BY_CONSTRUCTION = {"foreign-signal", "orphan-signal", "foreign-bundle", "foreign-instance-ref", "self-cycle", "two-cycle",
-                   "unnamed-module", "name-clash", "displaced-signal"}
+                   "unnamed-module", "name-clash", "displaced-signal", "ext-name-clash"}
 
 
 def expr_kind(e):
@@ -223,6 +223,9 @@ def mutations(design, rng, limit_per_class):
         d = copy.deepcopy(design)
         d["cycle"] = ["self", m["name"]]
         add("self-cycle", f"module/depth{0 if m['name'] == design['top'] else 1}", d)
+    d = copy.deepcopy(design)
+    d["extclash"] = True
+    add("ext-name-clash", "module", d)
     mods = [m["name"] for m in design["modules"]]
     if len(mods) >= 2:
         d = copy.deepcopy(design)
@@ -271,6 +274,15 @@ def build_mutant(design):
             m.name = ms["name_override"]
         if clash and ms["name"] in clash:
             m.name = f"Clash{built.uid}"
+    if design.get("extclash"):
+        # two DIFFERENT external modules under one domain and name (another port order / width), both instantiated
+        topm = built.modules[design["top"]]
+        x1 = h.ExternalModule(name="ClashX", domain="hvclash", port_list=[h.Port(name="a"), h.Port(name="b")], paramtype=h.HasNoParams)
+        x2 = h.ExternalModule(name="ClashX", domain="hvclash", port_list=[h.Port(name="b", width=2), h.Port(name="a"), h.Port(name="c")], paramtype=h.HasNoParams)
+        s1 = topm.add(h.Signal(), name="zzc1")
+        s2 = topm.add(h.Signal(width=2), name="zzc2")
+        topm.add(x1()(a=s1, b=s1), name="zzx1")
+        topm.add(x2()(a=s1, b=s2, c=s1), name="zzx2")
     disp = design.get("displace")
     if disp and disp[0] in built.modules:
         built.modules[disp[0]].add(h.Signal(width=disp[2]), name=disp[1])
@@ -347,7 +359,7 @@ def call_all(rec, cls, site, design, case):
         except Exception:
             pass
     rec.hist("matrix", f"{cls} @ {site}")
-    ret = [c for c, r in results.items() if r == "returned" and not (cls == "name-clash" and c == "elaborate")]
+    ret = [c for c, r in results.items() if r == "returned" and not (cls in ("name-clash", "ext-name-clash") and c == "elaborate")]
     if ret:
         rec.violation(f"illformed-accepted:{cls}:{'+'.join(ret)}",
                       f"fault '{cls}' planted at site {site}: {', '.join(ret)} returned instead of raising", case=case,
